@@ -1,10 +1,10 @@
 """C08 — BioConsert returns a local optimum of the Kemeny score."""
 import random
 from hypothesis import strategies as st
-from vlib import gen, lib, configs, oracle
+from vlib import gen, lib, configs, oracle, mutate
 from vlib.harness import HypSub
 from vlib.lib import Violation
-from checks.common_alg import well_formed
+from checks.common_alg import well_formed, run_case
 
 META = {
     "level": "exploration",
@@ -34,8 +34,9 @@ def cases(draw, tier):
                             gen.preset_multiples(["unifying", "unifying_half", "induced", "induced_half"])))
     ds = draw(gen.datasets(max_n=draw(st.sampled_from([6, 10, 16, 30])) if big else draw(st.sampled_from([5, 8, 10])),
                            max_m=6, min_n=3))
-    return {"config": name, "scheme": scheme, "dataset": ds, "at_most_one": draw(st.sampled_from([False, False, True])),
-            "rng": draw(st.integers(0, 9999))}
+    return {"config": name, "env": "absent", "scheme": scheme, "dataset": ds,
+            "at_most_one": draw(st.sampled_from([False, False, True])), "rng": draw(st.integers(0, 9999)),
+            "via_mutation": draw(mutate.via_strategy(ds["rankings"], p=5))}
 
 
 def best_move(inst, model):
@@ -77,8 +78,8 @@ def best_move(inst, model):
 
 def check(case, ctx):
     rankings, scheme = case["dataset"]["rankings"], case["scheme"]
-    d, s = lib.mk_dataset(rankings), lib.mk_scheme(scheme)
-    st_, (status, val, alg) = lib.call(configs.run, case["config"], "absent", d, s, case["at_most_one"], case["rng"])
+    case.setdefault("env", "absent")
+    status, val, alg, d, s = run_case(case)
     labels = gen.dataset_labels(case["dataset"]) + ["cfg:" + case["config"], "status:" + status]
     if status != "ok":
         ctx.stats.case(case, False, labels)
